@@ -198,7 +198,8 @@ def oracle(case, stats=None):
     mat2 = mat
     try:
         if name == "sparse":
-            sol1, e1 = run_qp(mat, sp=True, spA=t["spA"]) if qp else run_lp(mat, spG=True, spA=True)
+            # mixed storage (sparse G with dense A and vice versa) is a presentation of its own
+            sol1, e1 = run_qp(mat, sp=True, spA=t["spA"]) if qp else run_lp(mat, spG=True, spA=t["spA"])
         elif name == "kkt":
             k = t["kkt"]
             if (k == "qr" and qp) or (k == "chol2" and not pure_l):
@@ -434,9 +435,86 @@ def names_oracle(case, stats=None):
         stats.evaluated(case, not accepted, ["names", "entry:" + entry, "accepted" if accepted else "rejected"])
 
 
+# ------------------------------------------------------------------ part "patterns": storage formats on sparse patterns
+
+@st.composite
+def pattern_case(draw):
+    """pure-'l' LP/QP with 8..12 variables and a genuinely sparse G (3 entries per row + bound rows), dense-ish A:
+    large enough for fill-reducing orderings and supernodes to matter"""
+    n = draw(st.integers(8, 12))
+    mrows = draw(st.integers(4, 8))
+    p = draw(st.integers(0, 2))
+    rows = [[(draw(st.integers(0, n - 1)), draw(gc.dy(-4, 4))) for _ in range(3)] for _ in range(mrows)]
+    return dict(n=n, mrows=mrows, p=p, rows=rows, A=[[draw(gc.dy(-4, 4)) for _ in range(n)] for _ in range(p)],
+                x0=[draw(st.integers(1, 3)) / 2.0 for _ in range(n)], s0=[draw(st.integers(1, 4)) / 4.0 for _ in range(mrows + n)],
+                z0=[draw(st.integers(1, 4)) / 4.0 for _ in range(mrows + n)], y0=[draw(gc.dy(-2, 2)) for _ in range(p)],
+                qp=draw(st.booleans()), pd=[draw(st.integers(0, 4)) / 4.0 for _ in range(n)])
+
+
+def pattern_oracle(case, stats=None):
+    n, mrows, p = case["n"], case["mrows"], case["p"]
+    m = mrows + n
+    G = np.zeros((m, n))
+    for i, r in enumerate(case["rows"]):
+        for j, v in r:
+            G[i, j] += v
+    for j in range(n):
+        G[mrows + j, j] = -1.0
+    A = np.array(case["A"], dtype=float).reshape((p, n))
+    if p and np.linalg.matrix_rank(A) < p:
+        if stats is not None:
+            stats.evaluated(case, False, ["patterns:skipped_rank"])
+        return
+    x0, s0, z0, y0 = (np.array(case[k], dtype=float) for k in ("x0", "s0", "z0", "y0"))
+    h, b = G @ x0 + s0, A @ x0
+    P = np.diag(case["pd"]) if case["qp"] else None
+    c = -(G.T @ z0) - A.T @ y0 - (P @ x0 if P is not None else 0.0)
+    dn, sp_ = gc.cvx_dense, lambda a: sparse(gc.cvx_dense(a))
+    cm, hm, bm = dn(c), dn(h), dn(b)
+
+    def solve(fG, fA, fP, kkt):
+        kw = dict(kktsolver=kkt, options={"show_progress": False})
+        if P is not None:
+            return solvers.qp(fP(P), cm, fG(G), hm, fA(A) if p else None, bm if p else None, **kw)
+        return solvers.lp(cm, fG(G), hm, fA(A) if p else None, bm if p else None, **kw)
+    try:
+        ref = solve(dn, dn, dn, "ldl")
+    except Exception as e:       # noqa  (judged by C05)
+        if stats is not None:
+            stats.evaluated(case, False, ["patterns:base_raised"])
+        return
+    if ref["status"] != "optimal":
+        if stats is not None:
+            stats.evaluated(case, False, ["patterns:base_" + ref["status"]])
+        return
+    pref = ref["primal objective"]
+    for gname, fG in (("dense", dn), ("sparse", sp_)):
+        for aname, fA in (("dense", dn), ("sparse", sp_)):
+            for kkt in (None, "chol2", "ldl"):
+                what = "%s with G %s, A %s%s, kktsolver=%r (n=%d, %d rows, p=%d)" % ("qp" if case["qp"] else "lp", gname, aname,
+                                                                             ", P " + gname if case["qp"] else "", kkt, n, m, p)
+                try:
+                    sol = solve(fG, fA, fG, kkt)
+                except Exception as e:   # noqa
+                    raise Violation("%s raised %s: %s although the all-dense 'ldl' presentation is optimal" % (what, type(e).__name__, e))
+                if sol["status"] == "unknown" and all(isinstance(sol.get(k_), float) for k_ in ("primal infeasibility", "dual infeasibility", "gap")) \
+                        and max(sol["primal infeasibility"], sol["dual infeasibility"]) <= 1e-5 and sol["gap"] <= 1e-5 * max(1.0, abs(pref)) \
+                        and abs(sol["primal objective"] - pref) <= 1e-5 * max(1.0, abs(pref)):
+                    continue        # stopped early with an iterate that is already accurate (the escape clause of C05)
+                if sol["status"] != "optimal":
+                    raise Violation("%s: status %r, the all-dense 'ldl' presentation of the same problem is optimal (%.6g)" % (what, sol["status"], pref))
+                if abs(sol["primal objective"] - pref) > 1e-5 * max(1.0, abs(pref)):
+                    raise Violation("%s: optimal value %.9g, all-dense 'ldl' presentation %.9g" % (what, sol["primal objective"], pref))
+    if stats is not None:
+        stats.evaluated(case, True, ["patterns:" + ("qp" if case["qp"] else "lp"), "patterns:p=%d" % p])
+
+
 def search(ctx, stats):
     for k in KNOWN:
         KNOWN[k] = ctx.known_active(k)
+    if ctx.part == "patterns":
+        v = run_given(pattern_case(), lambda c: pattern_oracle(c, stats), ctx.seed, ctx.n(1500, 30000), stats)
+        return [v] if v else []
     if ctx.part == "names":
         v = run_given(names_case(), lambda c: names_oracle(c, stats), ctx.seed, ctx.n(3000, 30000), stats)
     else:
@@ -446,7 +524,7 @@ def search(ctx, stats):
 
 def replay(case, part):
     try:
-        (names_oracle if part == "names" else oracle)(case)
+        (names_oracle if part == "names" else (pattern_oracle if part == "patterns" else oracle))(case)
     except Violation as v:
         return v.msg
     return None
